@@ -191,6 +191,25 @@ pub struct Opts {
     pub bg: u8,            // cleanup in the background thread: observations only after shutdown (C07)
 }
 
+/// A public `WriteMode` variant for a `MODE` line: (text, the capacity the file writer's BufWriter
+/// will have, asynchronous?). About a third are the variants with defaults (`BufferDontFlush`,
+/// `BufferAndFlush`, `Async`, `SupportCapture`) or with a flusher thread that really ticks
+/// (every 2..7 ms — its flushes fall at arbitrary instants between and during the operations).
+pub fn pick_mode(r: &mut Rng, caps: &[u64], pools: &[u64], msgs: &[u64]) -> (String, Option<u64>, bool) {
+    match r.below(16) {
+        0 | 1 | 2 => ("direct".to_string(), None, false),
+        3 | 4 | 5 => { let cc = *r.pick(caps); (format!("buf:{cc}"), Some(cc), false) }
+        6 => { let cc = *r.pick(caps); (format!("bufflush:{cc}"), Some(cc), false) }
+        7 => { let cc = *r.pick(caps); (format!("bufflush:{cc}:{}", r.pick(&[2u64, 3, 7])), Some(cc), false) }
+        8 => ("bufdef".to_string(), Some(8192), false),
+        9 => ("bufflushdef".to_string(), Some(8192), false),
+        10 => ("capture".to_string(), None, false),
+        11 => ("asyncdef".to_string(), None, true),
+        12 => (format!("async:{}:{}:{}", r.pick(pools), r.pick(msgs), r.pick(&[2u64, 3, 7])), None, true),
+        _ => (format!("async:{}:{}", r.pick(pools), r.pick(msgs)), None, true),
+    }
+}
+
 fn cfg_line(rot: &Option<String>, append: bool, cap: Option<u64>, symlink: bool, has_suffix: bool) -> String {
     format!("{} {} {} {} {}", rot.clone().unwrap_or("-".into()), append as u8, cap.map_or("_".into(), |x| x.to_string()), symlink as u8, has_suffix as u8)
 }
@@ -247,12 +266,9 @@ pub fn gen_hist(o: &Opts, r: &mut Rng, k: u64, tier: &str) -> Vec<String> {
     };
     let mut is_async = false;
     if o.modes {
-        let m = match r.below(5) {
-            0 => { cap = None; "direct".to_string() }
-            1 => { let cc = *r.pick(&[1u64, 7, 64, 8192]); cap = Some(cc); format!("buf:{cc}") }
-            2 => { let cc = *r.pick(&[1u64, 7, 64, 8192]); cap = Some(cc); format!("bufflush:{cc}") }
-            _ => { cap = None; is_async = true; format!("async:{}:{}", r.pick(&[1u64, 2, 3, 50]), r.pick(&[0u64, 1, 10, 200])) }
-        };
+        let (m, cc, a) = pick_mode(r, &[1, 7, 64, 8192], &[1, 2, 3, 50], &[0, 1, 10, 200]);
+        cap = cc;
+        is_async = a;
         c.push(format!("MODE {m}"));
     }
     let symlink = r.chance(1, 4);
@@ -641,12 +657,7 @@ fn gen_c15_chunks(tier: &str, seed: u64) -> Vec<Vec<String>> {
         c.push(spec);
         let n: u64 = *r.pick(&[0, 7, 64]);
         let rot = if r.chance(1, 2) { None } else { Some(format!("{n};_;{naming};never")) };
-        let (mode, cap, is_async) = match r.below(5) {
-            0 => ("direct".to_string(), None, false),
-            1 => { let cc = *r.pick(&[1u64, 7, 64, 8192]); (format!("buf:{cc}"), Some(cc), false) }
-            2 => { let cc = *r.pick(&[1u64, 7, 64, 8192]); (format!("bufflush:{cc}"), Some(cc), false) }
-            _ => (format!("async:{}:{}", r.pick(&[1u64, 2, 50]), r.pick(&[0u64, 1, 10, 200])), None, true),
-        };
+        let (mode, cap, is_async) = pick_mode(&mut r, &[1, 7, 64, 8192], &[1, 2, 50], &[0, 1, 10, 200]);
         c.push(format!("MODE {mode}"));
         c.push(format!("CFG {}", cfg_line(&rot, false, cap, false, has_suffix)));
         let now = Clock::new(&mut r).now();
@@ -800,12 +811,7 @@ pub fn gen_c04(tier: &str, seed: u64) -> Vec<Vec<String>> {
         c.push(if r.chance(1, 4) { "VIA addwriter".to_string() } else { "VIA logger".to_string() });
         let n: u64 = *r.pick(&[5, 40, 300]);
         let rot = if r.chance(1, 3) { None } else { Some(format!("{n};_;{naming};never")) };
-        let (mode, cap, is_async) = match r.below(6) {
-            0 => ("direct".to_string(), None, false),
-            1 | 2 => { let cc = *r.pick(&[16u64, 100, 8192]); (format!("buf:{cc}"), Some(cc), false) }
-            3 => { let cc = *r.pick(&[16u64, 100, 8192]); (format!("bufflush:{cc}"), Some(cc), false) }
-            _ => (format!("async:{}:{}", r.pick(&[1u64, 3, 50]), r.pick(&[0u64, 10, 200])), None, true),
-        };
+        let (mode, cap, is_async) = pick_mode(&mut r, &[16, 100, 8192], &[1, 3, 50], &[0, 10, 200]);
         c.push(format!("MODE {mode}"));
         c.push(format!("CFG {}", cfg_line(&rot, false, cap, false, has_suffix)));
         let mut clock = Clock::new(&mut r);
